@@ -15,6 +15,19 @@ unify(…)` calls whose conversions Go discards.  Theorems hold for every `E` sa
 `UnifyLaws` (C08's one assumption about `unify`; `unifyLaws_std` below discharges it
 for the environment the drivers use), every fuel, and lists of types of any length
 and depth.
+
+Where a clause is false of the code as it exists the full statement is kept as a
+`def … : Prop`, with its negation proved from a concrete witness and the strongest
+statement that holds next to it:
+* `NilIffEqual` (a DynamicPseudoType input gets a conversion from unifyAllAsDynamic);
+* `ConvsYieldUnified`, `SafeConvsTotal`, `NoPanicApplied` — ONE defect: the closure
+  composed by unifyTuplesAsList / unifyObjectsAsMaps applies its second conversion to the
+  original value instead of the output of the first (wrong type / error in safe mode /
+  panic); the `_partial` theorems cover every slot that holds what
+  `GetConversion[Unsafe](input, result)` offers, i.e. all but the composed closures;
+* `UnsafeOfSafe` (placeholders; C08's witness), with the preference loop (any depth), the
+  lists that go straight to it, and the flat types (any depth) proved;
+* `SortVisitsAll` (the preference relation has cycles; sortTypes then drops candidates).
 -/
 import CtyModel.Lemmas.UnifyTyLaws
 import CtyModel.Lemmas.UnifyProps
